@@ -55,7 +55,7 @@ def variant(rng, data, shapes, k):
 def main(tier, seed, replay=None):
     warnings.simplefilter("ignore")
     rep = F.Report(PROP, tier, seed)
-    ob = F.coq_build(["Props/C09.v"], translators=["t4"], extra=list(EC.EXTRA_VO))
+    ob = F.coq_build(["Props/C09.v"], translators=["t4", "t5"], extra=list(EC.EXTRA_VO))
     rng = F.rng_for(seed, PROP)
     big = tier == "thorough"
     # ---- Tie B for the order theorem: the evaluator model against the real code with the shapes handed over in shuffled order
